@@ -293,6 +293,7 @@ func (w *World) Project() M {
 	}
 	xs := []M{}
 	tainted := false
+	taint := int64(0) // largest absolute cumulative matching residue over the pairs of this run
 	keys := make([][2]int64, 0, len(w.Xs))
 	for kk := range w.Xs {
 		keys = append(keys, kk)
@@ -304,9 +305,17 @@ func (w *World) Project() M {
 		if v[0] != 0 || v[1] != 0 {
 			tainted = true
 		}
+		for _, x := range v {
+			if x < 0 {
+				x = -x
+			}
+			if x > taint {
+				taint = x
+			}
+		}
 	}
 	return M{"h": ctx.BlockHeight(), "t": w.T(), "bal": bal, "pairs": pairs, "pools": pools, "reqs": reqs, "orders": orders, "qf": qf, "af": af,
-		"mmx": mmx, "lastPair": lastPair, "lastPool": lastPool, "par": pars, "inv": inv, "xs": xs, "tainted": tainted}
+		"mmx": mmx, "lastPair": lastPair, "lastPool": lastPool, "par": pars, "inv": inv, "xs": xs, "tainted": tainted, "taint": taint}
 }
 
 // ---------------------------------------------------------------------------------------------------
